@@ -1,0 +1,48 @@
+//go:build verif
+
+// Package verifhook provides crash-point hooks for the verification harness in /verif.
+// This file is only compiled with the build tag "verif".
+package verifhook
+
+import (
+	"os"
+	"strconv"
+	"sync"
+	"syscall"
+)
+
+var (
+	mu sync.Mutex
+	// Hook, when non-nil, is called at every hook point with the name of the point.
+	Hook func(name string)
+	// n counts hook points passed by this process.
+	n int
+	// crashAt is the 1-based index of the hook point at which the process kills
+	// itself (0 = never); taken from the environment variable VERIF_CRASH_AT.
+	crashAt, _ = strconv.Atoi(os.Getenv("VERIF_CRASH_AT"))
+)
+
+// SetHook installs f as the hook function and resets the counter.
+func SetHook(f func(name string)) {
+	mu.Lock()
+	Hook = f
+	n = 0
+	mu.Unlock()
+}
+
+// At marks a point between two file-system effects.
+func At(name string) {
+	mu.Lock()
+	n++
+	k := n
+	h := Hook
+	mu.Unlock()
+	if h != nil {
+		h(name)
+	}
+	if crashAt > 0 && k == crashAt {
+		// Die like a killed process: no deferred functions, no cleanup.
+		syscall.Kill(os.Getpid(), syscall.SIGKILL)
+		select {}
+	}
+}
